@@ -6,6 +6,7 @@ Ledger specification (writes only inside the commit phase of a transaction whose
 a failed execution issued no write; scripts never write)."""
 import json, os, re, shutil
 from vlib.core import Infra, read_ndjson, write_ndjson
+from vlib import tracecheck
 from checks.system_storage import FILES as STORAGE_FILES, dedupe_sim
 
 LEVEL = {"C24": "model_checking"}
@@ -44,30 +45,7 @@ def check_C24(ctx):
         index = read_ndjson(ix)
         events = read_ndjson(tr)
         execs = [r for r in index if not r.get("summary")]
-        rejected = []          # (exec, position within exec, event)
-        remaining = list(execs)
-        for attempt in range(8):
-            d = os.path.join(ctx.work, "tv%d_%d" % (ci, attempt))
-            os.makedirs(d, exist_ok=True)
-            flat, owner = [], []
-            for e in remaining:
-                for j in range(e["first"] - 1, e["last"]):
-                    flat.append(events[j])
-                    owner.append((e, j - (e["first"] - 1)))
-            write_ndjson(os.path.join(d, "trace.ndjson"), flat)
-            res = ctx.tlc(LFILES + [os.path.join(d, "trace.ndjson")], "Trace_Ledger", "Trace_Ledger.cfg", workers=1,
-                          expect_violation=True, tag="trace%d_%d" % (ci, attempt), timeout=1500, count=False)
-            if not res.violated:
-                break
-            ls = re.findall(r"^/\\ l = (\d+)", res.out, re.M)
-            if not ls:
-                raise Infra("TLC rejected a trace but the position could not be parsed:\n" + res.out[-2000:])
-            pos = int(ls[-1])
-            e, k = owner[pos - 1]
-            rejected.append((e, k, flat[pos - 1]))
-            remaining = [x for x in remaining if x is not e]   # drop the rejected execution, validate the rest
-        else:
-            raise Infra("more than 8 rejected executions in one chunk; stopping")
+        rejected = tracecheck.validate(ctx, LFILES, "Trace_Ledger", "Trace_Ledger.cfg", events, execs, "trace%d" % ci)
         return ci, rejected, index, events
 
     with cf.ThreadPoolExecutor(max_workers=min(nchunks, 8)) as ex:
